@@ -405,6 +405,55 @@ func nestBomb(code uint32, d int) []byte {
 	return b
 }
 
+// wideGroup: one grouped AVP with w members that are (empty) grouped AVPs of the
+// same code; deep: every 10th member holds a chain of 20 more.
+func wideGroup(code uint32, w int, deep bool) []byte {
+	var body []byte
+	for i := 0; i < w; i++ {
+		if deep && i%10 == 0 {
+			inner := nestBomb(code, 20)[20:]
+			body = append(body, inner...)
+			continue
+		}
+		m := make([]byte, 8)
+		binary.BigEndian.PutUint32(m, code)
+		m[4] = 0x40
+		put24(m, 5, 8)
+		body = append(body, m...)
+	}
+	total := 20 + 8 + len(body)
+	b := make([]byte, 28, total)
+	copy(b, refcodec.EncodeHeader(refcodec.Header{Version: 1, Length: uint32(total), Flags: 0x80, Code: 257, HopByHop: 1, EndToEnd: 1}))
+	binary.BigEndian.PutUint32(b[20:], code)
+	b[24] = 0x40
+	put24(b, 25, 8+len(body))
+	return append(b, body...)
+}
+
+// distinctUnknowns: a message of n 8-byte AVPs with codes nobody defines, all
+// different (also from those of other seeds), half of them with a vendor id.
+func distinctUnknowns(seed uint32, n int) []byte {
+	var body []byte
+	for i := 0; i < n; i++ {
+		code := 0x01000000 + seed*8192 + uint32(i)
+		if i%2 == 0 {
+			a := make([]byte, 8)
+			binary.BigEndian.PutUint32(a, code)
+			put24(a, 5, 8)
+			body = append(body, a...)
+		} else {
+			a := make([]byte, 12)
+			binary.BigEndian.PutUint32(a, code)
+			a[4] = 0x80
+			put24(a, 5, 12)
+			binary.BigEndian.PutUint32(a[8:], 70000+seed+uint32(i))
+			body = append(body, a...)
+		}
+	}
+	h := refcodec.EncodeHeader(refcodec.Header{Version: 1, Length: uint32(20 + len(body)), Flags: 0x80, Code: 257, HopByHop: 1, EndToEnd: 1})
+	return append(h, body...)
+}
+
 func seedMessage(c *ev.Case, ctx *lib.Ctx) (*gen.Msg, []byte) {
 	o := &gen.Opts{MaxDepth: 3, MaxAVPs: 6}
 	for {
@@ -543,6 +592,45 @@ func TestC03(t *testing.T) {
 		d := depths[c.I%len(depths)]
 		code := grouped[c.I/len(depths)]
 		offer(c, def, nestBomb(code, d), fmt.Sprintf("nest/depth=%d", d))
+	})
+
+	// 3a. wide instead of deep: one group holding many members that are groups themselves
+	//     (and trees that are both wide and deep)
+	widths := []int{1, 2, 127, 128, 129, 130, 200, 1000, 5000}
+	rec.Suite("wide-groups", len(widths)*len(grouped)*2, func(c *ev.Case) {
+		w := widths[c.I%len(widths)]
+		code := grouped[(c.I/len(widths))%len(grouped)]
+		deep := c.I/(len(widths)*len(grouped)) == 1
+		offer(c, def, wideGroup(code, w, deep), fmt.Sprintf("wide/members=%d/deep=%v", w, deep))
+	})
+
+	// 3c. retention: what the decoders keep once the messages are dropped must not grow with
+	//     the traffic (streams of AVPs whose code / vendor / application keeps changing)
+	rec.Suite("retention", rec.N(6, 60), func(c *ev.Case) {
+		ctx := ctxs[c.I%len(ctxs)]
+		var ms0, ms1 runtime.MemStats
+		runtime.GC()
+		runtime.ReadMemStats(&ms0)
+		supplied := 0
+		for k := 0; k < 40; k++ {
+			in := distinctUnknowns(uint32(c.I*1000+k), 2000)
+			supplied += len(in)
+			c.Input("ReadMessage-retention/"+ctx.Name, in[:64])
+			if m, err := diam.ReadMessage(bytes.NewReader(in), ctx.Parser); err == nil {
+				_ = m.String()
+				m.FindAVP(264, 0)
+			}
+		}
+		runtime.GC()
+		runtime.GC()
+		runtime.ReadMemStats(&ms1)
+		grown := int64(ms1.HeapAlloc) - int64(ms0.HeapAlloc)
+		c.Class("retention/%s", ctx.Name)
+		c.Event("retention_rounds", 1)
+		if grown > int64(supplied)/4+(1<<20) {
+			c.Fail(ev.Sig{"op": "retained-after-drop", "call": "ReadMessage"}, nil, map[string]any{"supplied": supplied, "heap_growth_after_gc": grown},
+				"after decoding and dropping 40 messages (%d bytes supplied, every AVP with another undefined code / vendor) the live heap is %d bytes larger than before (bound: supplied/4 + 1 MiB): the decoder keeps memory per distinct AVP seen", supplied, grown)
+		}
 	})
 
 	// 3b. claimed length x supplied bytes: a header that claims much and a peer
